@@ -31,7 +31,7 @@ IsEvent(e) == l <= Len(Trace) /\ Trace[l].ev = e /\ l' = l + 1
 TrReset ==
   /\ IsEvent("reset")
   /\ mem' = NoPatterns /\ disk' = NoPatterns
-  /\ memo' = IF Trace[l].forget = 1 THEN NoMemo ELSE memo
+  /\ memo' = IF "forget" \in DOMAIN Trace[l] /\ Trace[l].forget = 1 THEN NoMemo ELSE memo
   /\ UNCHANGED ops
 
 TrReg     == IsEvent("reg") /\ Register(Trace[l].p, Trace[l].set)
